@@ -184,7 +184,7 @@ def build(flavour="shared", hashes=None, symver_asm=False, cfg_undef=(), cfg_def
     """Build the analysed program. Returns dict with paths: dir, bc (linked, SSA),
     facts (json path), units, flags, params, incdir."""
     srcs, flags, params = units_and_flags()
-    key = "%s|%s|%s|%s|%s|v4" % (flavour, ",".join(sorted(hashes)) if hashes is not None else "-",
+    key = "%s|%s|%s|%s|%s|v5" % (flavour, ",".join(sorted(hashes)) if hashes is not None else "-",
                               symver_asm, ",".join(cfg_undef), json.dumps(cfg_define or {}, sort_keys=True))
     dig = input_digest(key)
     out = outdir or os.path.join(CACHE, dig)
@@ -231,9 +231,10 @@ def build(flavour="shared", hashes=None, symver_asm=False, cfg_undef=(), cfg_def
     r = _run([OPT, "-passes=sroa,mem2reg", linked, "-o", ssa])
     if r.returncode != 0:
         raise AnalysisBroken("opt failed: " + r.stderr[:1000])
+    enabled = sorted(hashes) if hashes is not None else sorted(x for x in params["hashes_enabled"].strip(",").split(",") if x)
     info = {"dir": out, "bc": ssa, "linked": linked, "units": srcs, "flags": flags,
             "params": params, "incdir": inc, "flavour": flavour,
-            "unit_bc": objs}
+            "unit_bc": objs, "enabled": enabled}
     if want_facts:
         facts = os.path.join(out, "facts.json")
         irf = os.path.join(BUILD, "irfacts")
@@ -251,7 +252,7 @@ def build(flavour="shared", hashes=None, symver_asm=False, cfg_undef=(), cfg_def
     return info
 
 
-def prune_cache(keep=12):
+def prune_cache(keep=80):
     try:
         ents = [os.path.join(CACHE, d) for d in os.listdir(CACHE)]
         ents = [e for e in ents if os.path.isdir(e)]
